@@ -204,6 +204,8 @@ def elementwise(ex, f, operands, kind):
             else:
                 vals.append(o)
         return f(*vals)
+    if nd == 0:
+        return elem(())          # numpy returns a scalar, not a 0-d array, for operations on 0-d operands
     return Arr(shape, elem, kind)
 
 
